@@ -6,7 +6,10 @@ import json, os, subprocess, sys, time
 wt, patch, props = sys.argv[1], sys.argv[2], sys.argv[3].split(",")
 runs = sys.argv[4] if len(sys.argv) > 4 else None
 subprocess.check_call(["git", "-C", wt, "checkout", "--", "."])
-subprocess.check_call(["git", "-C", wt, "apply", patch])
+subprocess.check_call(["git", "-C", wt, "checkout", "-q", "--detach", "main"])
+r = subprocess.run(["git", "-C", wt, "apply", patch])
+if r.returncode != 0:
+    subprocess.check_call(["git", "-C", wt, "apply", "--3way", patch])
 env = dict(os.environ, VERIF_REPO=wt, VERIF_NO_EVIDENCE="1")
 if runs:
     env["VERIF_RUNS"] = runs
